@@ -172,7 +172,7 @@ func runHosts(name string) (rec hRec) {
 	}
 
 	site = "VerifC18NewNode(A)"
-	a, err := p2p.VerifC18NewNode(listen, time.Second, 50*time.Millisecond, aLimInterval, aBlacklist, []p2p.VerifC18Handler{aPing})
+	a, err := p2p.VerifC18NewNode(listen, banWindow(), 50*time.Millisecond, aLimInterval, aBlacklist, []p2p.VerifC18Handler{aPing})
 	if err != nil {
 		rec.Err = "A: " + err.Error()
 		return rec
@@ -340,7 +340,7 @@ func runHosts(name string) (rec hRec) {
 	err = connect(a, b)
 	obs.DialOutRefused, obs.DialOutErr = bp(err != nil), sp(errStr(err))
 
-	time.Sleep(3200 * time.Millisecond)
+	time.Sleep(banWindow() + 2200*time.Millisecond)
 	site = "Banned(expiry)"
 	obs.BannedAfterExpiry = bp(contains(a.Banned(), ip))
 	obs.ScoreAfterExpiry = ip_(score())
